@@ -21,7 +21,7 @@ TRUSTED = [
     "monotonicity for ALL rules and all seven frequencies; period day sets and advance of the calendar frequencies; the BY filter in calendar "
     "terms; iter = Spec.occ for DAILY/WEEKLY/MONTHLY/YEARLY with BYMONTH/BYMONTHDAY/BYYEARDAY/plain BYDAY/BYHOUR/BYMINUTE/BYSECOND, BYSETPOS "
     "(WEEKLY only with the start on the week start), MONTHLY / YEARLY nth weekdays, defaults, COUNT, UNTIL; every yielded value a valid datetime.  NOT proved (covered by correspondence + oracle only): exactness for HOURLY/MINUTELY/SECONDLY, "
-    "BYWEEKNO, YEARLY nth BYDAY inside BYMONTH, BYEASTER",
+    "BYWEEKNO, BYEASTER, nth BYDAY mixed with BYMONTHDAY",
 ]
 ASSUMPTIONS = [
     "aware starts: the model carries tzinfo as an opaque tag; `until` is compared in the frame of dtstart.tzinfo "
